@@ -17,7 +17,7 @@ from ..stats import jsonable
 ID = "C02"
 SHARDS = {"quick": 8, "thorough": 16}
 RULE = ("as C01 plus a positive heat-capacity field 1e-8..1e-2 a.u. (1e-14..1e-2 in a third of the cases); shear clause: task list on a duck calculator "
-        "with a generic strain field (ntv x 3) and one of the 15 shear keys; non-trivial = T>0 with gap > 1e-6 |c|, "
+        "with a generic strain field (ntv x 3) and one of the 15 shear keys; both values are read again from the same object; non-trivial = T>0 with gap > 1e-6 |c|, "
         "off-diagonal with |e_i-e_j|>0.05, or shear case whose non-shear dependencies have a non-zero gap")
 ASSUMPTIONS = [
     "dP/dT from the numerically differentiated reference free energy (5-point in T x 7-point in V, per-mode steps)",
@@ -70,6 +70,12 @@ def oracle(ctx, full):
         else:
             iso = ctx.observe(lambda: np.array(obj.value_isothermal), _bucket="C02/iso-crash", _case=case)
             adi = ctx.observe(lambda: np.array(obj.value_adiabatic), _bucket="C02/adi-crash", _case=case)
+        # a second reading of either value from the same object returns the same numbers
+        for nm, first in (("value_adiabatic", adi), ("value_isothermal", iso), ("value_adiabatic", adi)):
+            again = np.array(getattr(obj, nm))
+            if again.shape != first.shape or not np.array_equal(first, again, equal_nan=True):
+                raise PropertyViolation("C02/%s/changed-by-reading" % full["kind"], "%s read a second time differs from its first reading (max change %.3g)" % (
+                    nm, float(np.nanmax(np.abs(first - again))) if again.shape == first.shape else float("nan")), case)
     gap = adi - iso
     want = T[:, None] * V[None, :] * ref["dPdT"] ** 2 / (9 * (ei * ej)[None, :] * cv)
     scale = T[:, None] * V[None, :] * ref["dPdT_abs"] ** 2 / (9 * np.abs(ei * ej)[None, :] * cv)
